@@ -32,4 +32,13 @@ import json
 for k,v in json.load(open('selftest/expect.json')).items():
     if not k.startswith('_'): print(k,' '.join(v))" | while read f props; do run "selftest/$f" $props; done
 fi
+if [ "$what" = all ] || [ "$what" = harmless ]; then
+  python3 -c "
+import json
+for k,v in json.load(open('selftest/expect_pass.json')).items():
+    if not k.startswith('_'): print(k,' '.join(v))" | while read f props; do
+    out=$(./mutcheck.sh "selftest/$f" $props 2>&1)
+    if echo "$out" | grep -q "exit=1"; then echo "FALSE-ALARM selftest/$f: $(echo "$out" | grep -E '^  failed' | head -2 | cut -c1-160)"; else echo "quiet   selftest/$f ($props)"; fi
+  done
+fi
 exit $miss
